@@ -133,6 +133,7 @@ package utils
 
 //@ func sortedVals
 //@   props C11
+//@   expose
 //@   ensures one_value_per_key: len(result) == len(m)
 //@   ensures every_key_contributes: allstr(k, present(m, k) ==> exists(j, 0, len(result), result[j] == m[k]))
 //@   internal in_sorted_key_order: len(m) != 1 ==> len(vs) == len(ks) && forall(j, 0, len(vs), present(m, ks[j]) && vs[j] == m[ks[j]]) && forall(i, 0, len(ks), forall(j, i + 1, len(ks), !strlt(ks[j], ks[i])))
